@@ -412,6 +412,52 @@ func cmdCheck(args []string) int {
 		all = append(all, o)
 		preSolved[o] = true
 	}
+	// walk completeness: one obligation per method that must be reached from the root
+	for _, wc := range p.cs.WalkComplete {
+		if !hasTag(wc.Tags, *prop) {
+			continue
+		}
+		root := p.fnByID[wc.Pkg+"::"+wc.Root]
+		if root == nil {
+			o := &Obligation{Name: "walk/" + wc.Root + "/root-exists", Class: "frame-scan", Tags: wc.Tags, Expect: "unsat", Result: &SolveResult{Status: "error", Output: "no such root function"}}
+			all = append(all, o)
+			preSolved[o] = true
+			continue
+		}
+		reach := p.reachable(root)
+		var names []string
+		byName := map[string]*ssa.Function{}
+		for fn := range p.allFns {
+			if !inModule(fn) || fn.Name() != wc.Method || fn.Signature.Recv() == nil || fn.Synthetic != "" {
+				continue
+			}
+			// document validators take a context first
+			if fn.Signature.Params().Len() == 0 || fn.Signature.Params().At(0).Type().String() != "context.Context" {
+				continue
+			}
+			id := p.contractID(fn)
+			if !strings.HasPrefix(id, wc.Pkg+"::") {
+				continue
+			}
+			key := id[len(wc.Pkg)+2:]
+			if _, dup := byName[key]; dup {
+				continue
+			}
+			byName[key] = fn
+			names = append(names, key)
+		}
+		sort.Strings(names)
+		for _, key := range names {
+			fn := byName[key]
+			o := &Obligation{Name: "walk/" + wc.Root + "/reaches/" + key, Class: "frame-scan", Func: key, Tags: wc.Tags, Expect: "unsat", Src: "walkcomplete " + wc.Root + " " + wc.Method, Pos: p.fset.Position(fn.Pos()).String()}
+			o.Result = &SolveResult{Status: "unsat", Solver: "callgraph-scan"}
+			if !reach[fn] {
+				o.Result = &SolveResult{Status: "sat", Solver: "callgraph-scan", Output: key + " is not reachable from " + wc.Root + ": objects of this kind are never validated"}
+			}
+			all = append(all, o)
+			preSolved[o] = true
+		}
+	}
 	// funnels: designated callees may only be called from the listed functions
 	for _, oc := range p.cs.OnlyCalledBy {
 		if !hasTag(oc.Tags, *prop) {
